@@ -5,7 +5,8 @@ namespace C13
 open SExp
 
 /-- `(replace <g> <node> <sub parsed at offset 0> (<anchor> …) [<impl graph> | (raised K)])`
-      → `(ok <model result, exact wire form> <spec_model> <spec_impl> <inDomain> <incident order = incSpec>)`
+      → `(ok <model result, exact wire form> <spec_model> <spec_impl> <inDomain> <incident order = incSpec>
+           <labels in spec order> <inDomainAny>)`
     `(relabel <g> <offset> [<impl graph>])`
       → `(ok <model result> <spec_model> <spec_impl>)` -/
 def handle : List SExp → Option SExp
@@ -29,7 +30,8 @@ def handle : List SExp → Option SExp
       let exactOk := model.nodeIds.all fun a => model.nodeIds.all fun b =>
         labelsBetween model a b == specLabels g node sub anchors a b
       pure (.list [.atom "ok", ofGraph model, ofBool specModel, specImpl,
-                   ofBool (inDomain g node sub anchors), ofBool incOk, ofBool exactOk])
+                   ofBool (inDomain g node sub anchors), ofBool incOk, ofBool exactOk,
+                   ofBool (inDomainAny g node sub anchors)])
   | .atom "relabel" :: g :: off :: rest => do
       let g ← asGraph g
       let off ← asInt off
